@@ -54,6 +54,17 @@ def make_case(r, root, op):
     with open(os.path.join(layers, "sib.sbom.cdx.json"), "w") as f:
         f.write("{}")
     name = r.choice(["victim", "victim", "sib.x", "sib.2", "v.i.c"])     # dotted names whose stem is the sibling layer's name
+    # siblings whose names extend the victim's name (ruby / ruby-gems): their toml, SBOM files and content are not the victim's
+    for suffix in r.sample(["-gems", "_cache", "2", ".more"], r.randint(0, 2)):
+        sib2 = os.path.join(layers, name + suffix)
+        os.makedirs(os.path.join(sib2, "keep"))
+        with open(os.path.join(sib2, "keep", "f"), "wb") as f:
+            f.write(b"prefix-sibling")
+        with open(sib2 + ".toml", "w") as f:
+            f.write('[types]\ncache = true\n')
+        for fmt in r.sample(["cdx", "spdx", "syft"], r.randint(1, 3)):
+            with open(sib2 + ".sbom.%s.json" % fmt, "w") as f:
+                f.write('{"of":"prefix sibling"}')
     top = r.choice(TOP_KINDS)
     ldir = os.path.join(layers, name)
     links = []
